@@ -389,7 +389,8 @@ class Recfile(object):
                 result = self._read_columns(colnums, rows)
 
         if isscalar:
-            result = result[columns]
+            colname = fields if fields is not None else columns
+            result = result[colname]
         elif split:
             result = split_fields(result)
 
